@@ -30,6 +30,20 @@ func (c *compiler) sizeof(typ types.Type) value.Value {
 	return size_i
 }
 
+// the C ABI passes and returns a bool as a whole byte that is 0 or 1,
+// while a plain i1 only defines the lowest bit (xor i1 %x, true may leave 0xFE in the register).
+// zeroext makes llvm extend Wahrheitswert parameters and return values as C expects
+func markBoolsZeroExt(irFunc *ir.Func) {
+	for _, param := range irFunc.Params {
+		if types.Equal(param.Typ, ddpbool) {
+			param.Attrs = append(param.Attrs, enum.ParamAttrZeroExt)
+		}
+	}
+	if types.Equal(irFunc.Sig.RetType, ddpbool) {
+		irFunc.ReturnAttrs = append(irFunc.ReturnAttrs, enum.ReturnAttrZeroExt)
+	}
+}
+
 func (c *compiler) floatOrByteAsInt(src value.Value, from ddpIrType) value.Value {
 	switch from {
 	case c.ddpinttyp:
